@@ -67,7 +67,7 @@ def gen_history(r, k):
                 # an add fitting the (approximate) current level
                 L = lvl if not (i == 0 and first_res) else LEVELS.index(first_res)
                 if L == 4:
-                    d, t = r.choice(PT[:4] + PT), r.choice([1, 1, 2, 3, 7])
+                    d, t = r.choice(PT[:4] + PT), r.choice([1, 1, 2, 3, 7, 0])
                 elif L == 3:
                     d, t = r.choice(PT), None
                 elif L == 2:
@@ -82,7 +82,7 @@ def gen_history(r, k):
                     lvl = L
             else:
                 d = r.choice(PT + PR + SG + ["TOT", "UNK"])
-                t = r.choice([None, None, 1, 2])
+                t = r.choice([None, None, 1, 2, 0])
                 reso = r.choice([None, "pathways", "types", "processes", "signals", "off"])
             ops.append({"op": "add", "v": v, "reso": reso, "d": d, "t": t})
         elif u < 0.75:
@@ -93,7 +93,7 @@ def gen_history(r, k):
         else:
             d = r.choice(PT + PR + SG + ["TOT", "TOT", "UNK"])
             as_list = r.random() < 0.3
-            t = r.choice([None, 1, 2, 3]) if as_list else None
+            t = r.choice([None, 1, 2, 3, 0]) if as_list else None
             ops.append({"op": "read", "d": d, "t": t, "as_list": as_list})
     return {"ops": ops}
 
